@@ -134,7 +134,8 @@ def decode_performance(
         snote_ids = [n["id"] for n in snotes]
         snote_info = snotes
     else:
-        snote_info = snotes[np.isin(snotes["id"], snote_ids)]
+        row_of = dict((nid, i) for i, nid in enumerate(snotes["id"]))
+        snote_info = snotes[[row_of[nid] for nid in snote_ids]]
 
     # sort
     sort_idx = np.lexsort((snote_info["pitch"], snote_info["onset_div"]))
@@ -144,6 +145,7 @@ def decode_performance(
     pitches = snote_info["pitch"][sort_idx]
 
     pitches = np.clip(pitches, 1, 127)
+    snote_ids = [snote_ids[i] for i in sort_idx]
 
     dynamics_params = performance_array["velocity"][sort_idx]
     if beat_normalization != "beat_period":
